@@ -136,8 +136,11 @@ class C14(common.Spec):
         async def main(loop):
             edzed.reset_circuit()
             circuit = edzed.get_circuit()
-            dests = dict(p=Probe('p'), inp=edzed.Input('inp', initdef=0),
-                         cnt=edzed.Counter('cnt'))
+            # two of the destinations keep persistent state (send() must return the handler's value
+            # through AddonPersistence.event as well)
+            circuit.set_persistent_data({})
+            dests = dict(p=Probe('p'), inp=edzed.Input('inp', initdef=0, persistent=True),
+                         cnt=edzed.Counter('cnt', persistent=True))
             SlowInit('slowinit', init_timeout=20)
             SlowStop('slowstop', stop_timeout=20)
             for blk in dests.values():
